@@ -319,6 +319,8 @@ def template_yaml(t):
         y["nickname"] = t["nick"]
     if t.get("once"):
         y["just_once"] = True
+    if t.get("update_key"):          # YAML only (C09 artefact scans); not part of the Coq term
+        y["update_key"] = t["update_key"]
     if t.get("count") is not None:
         y["count"] = fdef_yaml(t["count"])
     own = t["own_fields"] if t.get("include") else t["fields"]
@@ -595,3 +597,132 @@ def factor_into_macros(rng, recipe):
     t["include"] = [name]
     t["own_fields"] = own
     return True
+
+
+# ----------------------------------------------------------------------------- directed streams
+# Small families of recipes aimed at interactions that the free generator reaches too rarely
+# (each one was added after an independent seeded change slipped through; DESIGN.md 11.4).
+
+def _T(table, nick=None, once=False, fields=(), count=None, friends=()):
+    return {"table": table, "nick": nick, "count": count, "once": once,
+            "fields": [list(f) for f in fields], "friends": [list(f) for f in friends]}
+
+
+def _F(*pieces):
+    return ["formula", [list(p) for p in pieces]]
+
+
+def stream_once_hidden(rng):
+    """a just_once row with hidden and visible fields (count 1-2, nickname or not), read by later
+    ordinary templates through the nickname and through the table name, in formulas and references"""
+    nick = rng.choice(["aa", "bb", None])
+    hf = rng.choice([HIDDEN_FIELD, "__p"])
+    cnt = rng.choice([None, ["int", 2]])
+    once = _T(rng.choice(["A", HIDDEN_TABLE]), nick, True,
+              [(hf, _F(["t", "k"], ["e", ["var", "child_index"]])),
+               ("f0", _F(["e", ["var", hf]], ["t", "_"], ["e", ["int", 7]])),
+               ("f1", ["int", rng.choice([5, 42])])], count=cnt)
+    names = [once["table"]] + ([nick] if nick else [])
+    names = [n for n in names if n.replace("_", "a").isalnum()]
+    fields = []
+    for q, nm in enumerate(names):
+        fields.append(("r%d" % q, ["ref", nm]))
+        fields.append(("h%d" % q, _F(["t", "x"], ["e", ["attr", ["var", nm], hf]])))
+        fields.append(("s%d" % q, _F(["e", ["attr", ["var", nm], hf]])))
+        fields.append(("v%d" % q, _F(["e", ["add", ["attr", ["var", nm], "f1"], ["var", "id"]]])))
+    reader = _T("C", None, False, fields)
+    stmts = [["obj", once], ["obj", reader]]
+    if rng.random() < 0.4:      # an ordinary row of the same table between them
+        stmts.insert(1, ["obj", _T(once["table"], None, False, [("f1", ["int", 1])])])
+    return {"version": rng.choice([2, 3]), "options": [], "stmts": stmts}, \
+        ["just_once", "hidden_field", "once_hidden_reader"] + (["nick"] if nick else [])
+
+
+def stream_idle_middle(rng):
+    """a table whose template produces rows in some iterations only (count is a formula of the
+    driver row's id: 1,0,1,.. / 0,1,0 / 1,0,0,1), next to a table fed every iteration"""
+    shape = rng.choice(["101", "010", "1001", "0110"])
+    a = ["attr", ["var", "A"], "id"]
+    if shape == "101":
+        cnt = ["mul", ["sub", a, ["int", 2]], ["sub", a, ["int", 2]]]          # 1,0,1,4,..
+    elif shape == "010":
+        cnt = ["sub", ["int", 1], ["mul", ["sub", a, ["int", 2]], ["sub", a, ["int", 2]]]]   # 0,1,0,-3
+    elif shape == "1001":
+        cnt = ["sub", ["int", 1], ["mul", ["sub", a, ["int", 1]], ["sub", ["int", 4], a]]]   # 1,-1,-1,1
+    else:
+        cnt = ["mul", ["sub", a, ["int", 1]], ["sub", ["int", 4], a]]          # 0,2,2,0
+    stmts = [["obj", _T("A", None, False, [("f0", ["int", 1])])],
+             ["obj", _T("B", rng.choice([None, "bb"]), False, [("r", ["ref", "A"])], count=_F(["e", cnt]))]]
+    if rng.random() < 0.5:
+        stmts.append(["obj", _T("C", None, False, [("f1", _F(["e", a]))], friends=[["obj", _T("B", None, False, [], count=_F(["e", cnt]))]])])
+    if rng.random() < 0.3:
+        stmts.insert(0, ["obj", _T("B", "jj", True, [("f0", ["int", 9])])])
+    return {"version": rng.choice([2, 3]), "options": [], "stmts": stmts}, ["count_formula", "idle_table", "shape_" + shape]
+
+
+def stream_shared_nick_forward(rng):
+    """one nickname declared on templates of two tables, one or both of them producing no row
+    (count 0), and a forward reference to the nickname (and/or the tables) before them"""
+    t1, t2 = rng.sample(["A", "B", "C"], 2)
+    c1, c2 = rng.choice([(0, 1), (1, 0), (0, 0), (1, 1), (0, 2)])
+    first = _T("D", None, False,
+               [("w", ["ref", "who"])] + ([("u", ["ref", rng.choice([t1, t2])])] if rng.random() < 0.4 else []))
+    stmts = [["obj", first],
+             ["obj", _T(t1, "who", False, [("f0", ["int", 1])], count=["int", c1])],
+             ["obj", _T(t2, "who", False, [("f0", ["int", 2])], count=["int", c2])]]
+    if rng.random() < 0.3:
+        stmts.append(["obj", _T("D", None, False, [("w2", ["ref", "who"])])])
+    return {"version": rng.choice([2, 3]), "options": [], "stmts": stmts}, ["nick", "forward_ref", "shared_nick_forward", "zero_count"]
+
+
+def stream_var_before_definition(rng):
+    """top-level variables read before the statement that defines them (undefined in the first
+    iteration, the previous iteration's value afterwards), also from nested contexts"""
+    v = rng.choice(["v0", "v1"])
+    reader_fields = [("p", _F(["t", "p"], ["e", ["var", v]])),
+                     ("f0", ["int", 1])]
+    if rng.random() < 0.5:
+        reader_fields.append(("q", _F(["t", "1"], ["e", ["var", v]])))
+    stmts = [["obj", _T("A", None, False, reader_fields,
+                        friends=([["obj", _T("B", None, False, [("g", _F(["t", "k"], ["e", ["var", v]], ["t", "_"]))])]]
+                                 if rng.random() < 0.5 else []))],
+             ["var", v, rng.choice([_F(["e", ["mul", ["attr", ["var", "A"], "id"], ["int", 10]]]),
+                                    _F(["t", "w"], ["e", ["attr", ["var", "A"], "id"]]),
+                                    ["int", 7]])]]
+    if rng.random() < 0.5:
+        stmts.append(["obj", _T("C", None, False, [("z", _F(["t", "z"], ["e", ["var", v]]))])])
+    return {"version": rng.choice([2, 3]), "options": [], "stmts": stmts}, ["var_top", "var_before_definition", "formula"]
+
+
+def stream_once_cluster(rng):
+    """2-3 just_once templates over 1-2 tables, with and without nicknames (ids coincide across
+    tables), then ordinary templates that use them by table name, by nickname and in formulas"""
+    tables = ["A", "B"] if rng.random() < 0.7 else ["A"]
+    nicks = ["zz", "aa", "mm"]
+    rng.shuffle(nicks)
+    stmts, names = [], []
+    for j in range(rng.randint(2, 3)):
+        tb = rng.choice(tables)
+        nk = nicks[j] if rng.random() < 0.6 else None
+        stmts.append(["obj", _T(tb, nk, True, [("f0", ["int", 10 + j]), ("f1", ["str", rng.choice(WORDS)])],
+                              count=(["int", 2] if rng.random() < 0.2 else None))])
+        names.append(tb)
+        if nk:
+            names.append(nk)
+    for j in range(rng.randint(1, 2)):
+        fields = []
+        for q, nm in enumerate(rng.sample(names, k=min(len(names), rng.randint(1, 3)))):
+            fields.append(("r%d" % q, ["ref", nm]))
+            fields.append(("v%d" % q, ["formula", [["e", ["attr", ["var", nm], rng.choice(["f0", "id"])]]]]))
+        stmts.append(["obj", _T(rng.choice(["C", "D"]), None, False, fields)])
+    if rng.random() < 0.4:        # an ordinary template of the same table shadows the table name locally
+        stmts.insert(rng.randint(len(stmts) - 1, len(stmts)), ["obj", _T(rng.choice(tables), None, False, [("f0", ["int", 77])])])
+    return {"version": rng.choice([2, 3]), "options": [], "stmts": stmts}, ["just_once", "nick", "once_cluster"]
+
+
+def random_cuts(rng, k):
+    """a random composition of k into >= 1 positive parts"""
+    if k < 2:
+        return [k]
+    cut = sorted(rng.sample(range(1, k), rng.randint(1, k - 1)))
+    return [b - a for a, b in zip([0] + cut, cut + [k])]
